@@ -112,6 +112,23 @@ async fn run_client(log: &Log, seed: u64, round: u64) {
     let client = net::make_client(&server, net::PASSWORD, PaddingFactory::default(), pool);
     let target = net::start_target("127.0.0.1:0", TargetMode::Echo).await;
     let mut seen: Vec<Arc<Session>> = Vec::new();
+    // a burst of overlapping requests on the empty pool: every one dials, every session enters the idle map
+    if round % 2 == 0 || r.chance(1, 3) {
+        let k = r.range(2, 3) as usize;
+        let futs: Vec<_> = (0..k).map(|_| client.create_proxy_stream((target.addr.ip().to_string(), target.addr.port()))).collect();
+        let outs = futures_join_all(futs).await;
+        let mut held = Vec::new();
+        for (j, out) in outs.into_iter().enumerate() {
+            if let Ok((stream, sess)) = out {
+                let new = !seen.iter().any(|s| s.id() == sess.id());
+                if new { seen.push(sess.clone()); }
+                ev!(log, "cserved", r: 50 + j as u64, s: sess.id(), new: new, sclosed: sess.is_closed());
+                held.push((50 + j as u64, stream));
+            }
+        }
+        for (rq, stream) in held { drop(stream); ev!(log, "cdone", r: rq); }
+        tokio::time::sleep(Duration::from_millis(20)).await;
+    }
     // sequential requests: each finishes before the next starts; now and then a session dies for an external reason
     let n = r.range(4, 9);
     for req in 1..=n {
@@ -164,10 +181,55 @@ async fn run_client(log: &Log, seed: u64, round: u64) {
     // after a quiet period the number of open sessions must be bounded by peak (1) + MI
     tokio::time::sleep(Duration::from_millis(1300)).await;
     let open = seen.iter().filter(|s| !s.is_closed()).count();
-    ev!(log, "csessions", open: open, peak: 2, mi: mi);
+    ev!(log, "csessions", open: open, peak: 3, mi: mi);
+    // which sessions are still open: those the idle map holds must have been reaped down to the minimum
+    let open_ids: Vec<u64> = seen.iter().filter(|s| !s.is_closed()).map(|s| s.id()).collect();
+    ev!(log, "cfinal", open: open_ids, mi: mi);
     ev!(log, "end", panics: PANICS.load(Ordering::SeqCst) - panics0);
     client.stop_session_pool_cleanup().await;
     for s in &seen { let _ = tokio::time::timeout(Duration::from_secs(2), s.close()).await; }
+}
+
+/// A request that arrives while a reaper round is in progress: every pooled session's transport blocks in
+/// shutdown, so closing one victim takes the reaper a second; 100 ms into the round the harness asks for a
+/// session and keeps what it gets "in use" for two more seconds.
+async fn run_midround(log: &Log, seed: u64, i: u64) {
+    let mut r = Rng::new(seed ^ 0x3d);
+    let ci = *r.pick(&[1000u64, 2000]);
+    let it = *r.pick(&[500u64, 1000, 1500]);
+    let mi = r.range(0, 1) as usize;
+    log.reset(json!({"kind": "midround", "i": i, "consts": {"CI": ci, "IT": it, "MI": mi}}));
+    let panics0 = PANICS.load(Ordering::SeqCst);
+    let t0 = tokio::time::Instant::now();
+    let pool = Arc::new(SessionPool::with_config(SessionPoolConfig { check_interval: Duration::from_millis(ci), idle_timeout: Duration::from_millis(it), min_idle_sessions: mi }));
+    quiesce().await;
+    let n = r.range(2, 4);
+    let mut all = Vec::new();
+    for k in 1..=n {
+        let rg = rig::client_rig(PaddingFactory::default(), None);
+        let _ = rg.sess.clone().start_client().await;
+        rg.sess.set_seq(k);
+        rg.sess.disable_buffering();
+        rg.out.with(|p| p.shutdown_blocks = true);
+        pool.add_idle_session(rg.sess.clone()).await;
+        all.push(rg);
+    }
+    // the first tick at which every session has been idle longer than the timeout
+    let tick = ((it / ci) + 1) * ci;
+    tokio::time::sleep_until(t0 + Duration::from_millis(tick)).await;
+    quiesce().await;
+    tokio::time::sleep_until(t0 + Duration::from_millis(tick + 100)).await;
+    let got = tokio::time::timeout(Duration::from_secs(10), pool.get_idle_session()).await;
+    let (res, closed_at_get) = match &got { Ok(Some(s)) => (s.seq(), s.is_closed()), _ => (0, false) };
+    // the session is in use now: housekeeping must leave it alone
+    tokio::time::sleep(Duration::from_secs(6)).await;
+    quiesce().await;
+    let closed_after = match &got { Ok(Some(s)) => s.is_closed(), _ => false };
+    ev!(log, "mid", res: res, hung: got.is_err(), closedAtGet: closed_at_get, closedAfter: closed_after);
+    ev!(log, "end", panics: PANICS.load(Ordering::SeqCst) - panics0);
+    pool.stop_cleanup_task().await;
+    for rg in &all { rg.out.with(|p| p.shutdown_blocks = false); let _ = tokio::time::timeout(Duration::from_secs(3), rg.sess.close()).await; }
+    quiesce().await;
 }
 
 /// A TCP relay in front of the server: counts the TLS connections the client dials and how many
@@ -314,12 +376,13 @@ pub fn run(args: &Args, log: &Log) -> Result<(), String> {
         local.block_on(&rt, async {
             let n = if thorough { 4000 } else { 400 };
             for i in 0..n { run_api(log, args.seed.wrapping_mul(7717).wrapping_add(i), i).await; }
+            for i in 0..(if thorough { 200 } else { 30 }) { run_midround(log, args.seed.wrapping_mul(131).wrapping_add(i), i).await; }
         });
     }
     {
         let rt = net::rt();
         rt.block_on(async {
-            for round in 0..(if thorough { 20 } else { 4 }) { run_client(log, args.seed + round, round).await; }
+            for round in 0..(if thorough { 24 } else { 6 }) { run_client(log, args.seed + round, round).await; }
             for round in 0..(if thorough { 300 } else { 30 }) { run_client_seq(log, args.seed.wrapping_mul(31).wrapping_add(round), round).await; }
         });
         rt.shutdown_timeout(Duration::from_millis(200));
